@@ -226,7 +226,6 @@ def mutants():
     from ..selftest import TextMutant as T
     S = "serializer.py"
     return [
-        T("flag-hoisted", REL, "        pending = []\n", "        pending = []\n        has_http_equiv_content_type = False\n", None),
         T("flag-never-reset", REL, "                    # replace charset with actual encoding\n                    has_http_equiv_content_type = False\n",
           "                    # replace charset with actual encoding\n", "R15.2"),
         T("found-without-content", REL, "                        if has_http_equiv_content_type and (None, \"content\") in token[\"data\"]:\n                            token[\"data\"][(None, \"content\")] = 'text/html; charset=%s' % self.encoding\n                            meta_found = True",
@@ -248,4 +247,7 @@ def mutants():
 
 
 def preserving():
-    return []
+    from ..selftest import TextMutant as T
+    return [
+        T("flag-also-initialised-before-loop", REL, "        pending = []\n", "        pending = []\n        has_http_equiv_content_type = False\n", None),
+    ]
